@@ -584,6 +584,26 @@ def _flush_collector(
     return 0
 
 
+def _flush_collector_logs(writer: ipc.RecordBatchStreamWriter, out: OutputCollector) -> None:
+    """Write only the client-log batches accumulated in an OutputCollector.
+
+    Used when ``process()`` raised: the data batch (if any) is discarded with
+    the failed step, but what the method logged on the way to the error is
+    still delivered, ahead of the error batch — as it is for a unary method.
+
+    Args:
+        writer: IPC stream writer to write the log batches to.
+        out: Collector of the step that raised.
+
+    """
+    for ab in out.log_batches:
+        _record_output(ab.batch)
+        if ab.custom_metadata is not None:
+            writer.write_batch(ab.batch, custom_metadata=ab.custom_metadata)
+        else:
+            writer.write_batch(ab.batch)
+
+
 def _dispatch_log_or_error(
     batch: pa.RecordBatch,
     custom_metadata: pa.KeyValueMetadata | None,
